@@ -148,6 +148,11 @@ Qed.
 Definition merge_view (n : nat) (D : dendrogram) : list (list nat * list nat * Q * nat) :=
   map (fun r => (leaves n D (r_left r), leaves n D (r_right r), r_height r, r_size r)) D.
 
+Lemma flat_map_children_map (f : nat -> nat) (l : list (nat * drow)) :
+  flat_map children (map (fun x => let r := snd x in ((f (r_left r), f (r_right r), r_height r, r_size r) : drow)) l) =
+  map f (flat_map children (map snd l)).
+Proof. induction l as [|x l IH]; [reflexivity|]. simpl in *. now rewrite IH. Qed.
+
 Section Reorder.
 (* a valid dendrogram in which no merge is lower than the merges that created its children *)
 Context (n : nat) (D : dendrogram) (Hwf : wf_dend n D) (Hmono : hmono n D = true).
@@ -155,7 +160,8 @@ Context (n : nat) (D : dendrogram) (Hwf : wf_dend n D) (Hmono : hmono n D = true
 Let srt := lexsort_rows D.
 Let index := map fst srt.
 Let rename (c : nat) := if Nat.ltb c n then c else n + pos (c - n) index.
-Let D' := map (fun x => let r := snd x in (rename (r_left r), rename (r_right r), r_height r, r_size r)) srt.
+Let D' : dendrogram :=
+  map (fun x => let r := snd x in ((rename (r_left r), rename (r_right r), r_height r, r_size r) : drow)) srt.
 
 Lemma srt_in t r : In (t, r) srt <-> nth_error D t = Some r.
 Proof.
@@ -242,7 +248,7 @@ Proof.
   intros Hr. assert (Ht : t < length D) by (apply nth_error_Some; congruence).
   assert (Hp := pos_lt _ _ (proj2 (index_in t) Ht)). rewrite index_length, <- srt_length in Hp.
   unfold D'. rewrite nth_error_map.
-  rewrite (nth_error_nth' srt _ (0, drow0) Hp), (srt_at_pos _ _ Hr). reflexivity.
+  rewrite (@List.nth_error_nth' _ srt (pos t index) (0, drow0) Hp), (srt_at_pos _ _ Hr). reflexivity.
 Qed.
 
 (* every row of the output is some row of the input, renamed *)
@@ -262,7 +268,7 @@ Proof.
   assert (Ht : t < length D) by (apply nth_error_Some; congruence).
   assert (Hpt := pos_lt _ _ (proj2 (index_in t) Ht)).
   assert (Hi2 : nth_error index (pos t index) = Some t).
-  { rewrite (nth_error_nth' index _ 0 Hpt). f_equal. apply nth_pos. now apply index_in. }
+  { rewrite (@List.nth_error_nth' _ index (pos t index) 0 Hpt). f_equal. apply nth_pos. now apply index_in. }
   apply (proj1 (NoDup_nth_error index) Hnd p (pos t index)); [| congruence].
   unfold index. rewrite map_length. exact Hp.
 Qed.
@@ -270,18 +276,21 @@ Qed.
 Lemma rename_lt c : c < n + length D -> rename c < n + length D.
 Proof.
   intros H. unfold rename. destruct (Nat.ltb c n) eqn:E; [apply Nat.ltb_lt in E; lia|].
-  apply Nat.ltb_ge in E. assert (Hp := pos_lt (c - n) index (proj2 (index_in _) ltac:(lia))).
+  apply Nat.ltb_ge in E. assert (Hc' : c - n < length D) by lia.
+  assert (Hp := pos_lt (c - n) index (proj2 (index_in (c - n)) Hc')).
   rewrite index_length in Hp. lia.
 Qed.
 
 Lemma rename_inj c1 c2 : c1 < n + length D -> c2 < n + length D -> rename c1 = rename c2 -> c1 = c2.
 Proof.
   intros H1 H2. unfold rename.
-  destruct (Nat.ltb c1 n) eqn:E1; destruct (Nat.ltb c2 n) eqn:E2;
-    try apply Nat.ltb_lt in E1; try apply Nat.ltb_lt in E2; try apply Nat.ltb_ge in E1; try apply Nat.ltb_ge in E2;
-    intros E; try lia.
-  assert (Hp : pos (c1 - n) index = pos (c2 - n) index) by lia.
-  apply pos_inj in Hp; [lia | apply index_in; lia | apply index_in; lia].
+  destruct (Nat.ltb c1 n) eqn:E1; destruct (Nat.ltb c2 n) eqn:E2; intros E.
+  - exact E.
+  - apply Nat.ltb_lt in E1. apply Nat.ltb_ge in E2. lia.
+  - apply Nat.ltb_ge in E1. apply Nat.ltb_lt in E2. lia.
+  - apply Nat.ltb_ge in E1. apply Nat.ltb_ge in E2.
+    assert (Hp : pos (c1 - n) index = pos (c2 - n) index) by lia.
+    apply pos_inj in Hp; [lia | apply index_in; lia | apply index_in; lia].
 Qed.
 
 Lemma csize_rename c : c < n + length D -> csize n D' (rename c) = csize n D c.
@@ -291,7 +300,8 @@ Proof.
   - apply Nat.ltb_ge in E.
     destruct (nth_error D (c - n)) as [r|] eqn:Hr; [|apply nth_error_None in Hr; lia].
     rewrite (csize_node n D' _ _ (D'_at_pos _ _ Hr)).
-    replace c with (n + (c - n)) at 2 by lia. rewrite (csize_node n D _ _ Hr). reflexivity.
+    pose proof (csize_node n D (c - n) r Hr) as E2. replace (n + (c - n)) with c in E2 by lia.
+    rewrite E2. reflexivity.
 Qed.
 
 Lemma children_all_lt c : In c (flat_map children D) -> c < n + length D.
@@ -318,7 +328,7 @@ Proof.
   - rewrite D'_length. exact (wf_len _ _ Hwf).
   - (* children of the output = renamed children of a permutation of the rows *)
     assert (E : flat_map children D' = map rename (flat_map children (map snd srt))).
-    { unfold D'. induction srt as [|x l IH]; simpl; [reflexivity|]. now rewrite IH. }
+    { exact (flat_map_children_map rename srt). }
     rewrite E. apply NoDup_map_inj_in.
     + assert (Hp : Permutation (flat_map children (map snd srt)) (flat_map children D)).
       { apply Permutation_flat_map. unfold srt. rewrite (Permutation_map snd (lexsort_perm D)).
@@ -335,10 +345,10 @@ Proof.
       - apply Nat.ltb_ge in E. assert (X := child_before_parent _ _ _ Hr Hc E). lia. }
     split; apply Hone; simpl; tauto.
   - intros p r' Hr'. destruct (D'_row _ _ Hr') as (t & r & Hr & -> & ->).
-    unfold r_left, r_right, r_size. cbn [fst snd].
     assert (Ht : t < length D) by (apply nth_error_Some; congruence).
-    destruct (wf_lt _ _ Hwf _ _ Hr) as [H1 H2].
-    rewrite !csize_rename by lia. exact (wf_size _ _ Hwf _ _ Hr).
+    destruct (wf_lt _ _ Hwf _ _ Hr) as [H1 H2]. assert (Hsz := wf_size _ _ Hwf _ _ Hr).
+    destruct r as [[[i j] h] s]. unfold r_left, r_right, r_size in *. cbn [fst snd] in *.
+    rewrite !csize_rename by lia. exact Hsz.
 Qed.
 
 Lemma D'_sorted : sortedq (heights D') = true.
@@ -361,19 +371,20 @@ Proof.
   - destruct (nth_error D (c - n)) as [r|] eqn:Hr; [|apply nth_error_None in Hr; lia].
     unfold rename at 1. replace (Nat.ltb c n) with false by (symmetry; now apply Nat.ltb_ge).
     rewrite (leaves_node n D' _ _ (wf_lt _ _ D'_wf) (D'_at_pos _ _ Hr)).
-    unfold r_left at 1, r_right at 1. cbn [fst snd].
     destruct (wf_lt _ _ Hwf _ _ Hr) as [H1 H2].
-    rewrite !IH by lia.
-    replace c with (n + (c - n)) at 3 by lia. now rewrite (leaves_node n D _ _ (wf_lt _ _ Hwf) Hr).
+    pose proof (leaves_node n D (c - n) r (wf_lt _ _ Hwf) Hr) as E2. replace (n + (c - n)) with c in E2 by lia.
+    rewrite E2. destruct r as [[[i j] h] s]. unfold r_left, r_right in *. cbn [fst snd] in *.
+    rewrite !IH by lia. reflexivity.
 Qed.
 
 Lemma D'_same_merges : Permutation (merge_view n D) (merge_view n D').
 Proof.
   assert (E : merge_view n D' = map (fun r => (leaves n D (r_left r), leaves n D (r_right r), r_height r, r_size r)) (map snd srt)).
   { unfold merge_view, D'. rewrite !map_map. apply map_ext_in. intros [t r] Hin. apply srt_in in Hin.
-    cbn [snd]. unfold r_left at 1, r_right at 1, r_height at 1, r_size at 1. cbn [fst snd].
     assert (Ht : t < length D) by (apply nth_error_Some; congruence).
-    destruct (wf_lt _ _ Hwf _ _ Hin) as [H1 H2]. rewrite !leaves_rename by lia. reflexivity. }
+    destruct (wf_lt _ _ Hwf _ _ Hin) as [H1 H2].
+    destruct r as [[[i j] h] s]. unfold r_left, r_right, r_height, r_size in *. cbn [fst snd] in *.
+    rewrite !leaves_rename by lia. reflexivity. }
   rewrite E. unfold merge_view. apply Permutation_map, Permutation_sym.
   unfold srt. rewrite (Permutation_map snd (lexsort_perm D)). now rewrite map_snd_combine_seq.
 Qed.
@@ -402,7 +413,7 @@ Qed.
 (** Without the height hypothesis the output can be invalid: the parent is sorted before the row that creates its
     child.  This is the shape defect D25 produces (parent 9/26 - 1 ulp, child 9/26). *)
 Definition inverted_example : dendrogram :=
-  [(0, 1, 2 # 1, 2); (2, 3, 1 # 1, 3)]%Q.
+  [(0, 1, (2 # 1)%Q, 2); (2, 3, (1 # 1)%Q, 3)].
 
 Theorem reorder_parent_below_child_refuted :
   exists n D D', valid n D = true /\ hmono n D = false /\ reorder_dendrogram D = Ok D' /\ valid n D' = false.
@@ -410,3 +421,5 @@ Proof.
   exists 3, inverted_example. eexists. split; [vm_compute; reflexivity|]. split; [vm_compute; reflexivity|].
   split; vm_compute; reflexivity.
 Qed.
+
+Print Assumptions reorder_valid.
